@@ -357,7 +357,7 @@ def gen_hand(rng, big):
         alphabet.append(["V", 0, types[0]])
     if rng.random() < 0.15 and ntypes > 1:
         alphabet.append(["V", 1, types[1]])
-    nfun = rng.randint(1, 4)
+    nfun = rng.randint(2, 5)
     for _ in range(nfun):
         ar = rng.choice([1, 1, 2, 2, 2, 3])
         args = [rng.choice(types) for _ in range(ar)]
@@ -366,7 +366,7 @@ def gen_hand(rng, big):
     states = []            # (type, level, id)
     for lev in range(nlev):
         for t in types:
-            for _ in range(rng.choice([1, 2, 2] if lev else [1, 2])):
+            for _ in range(rng.choice([1, 2, 2, 3] if lev else [1, 2])):
                 states.append((K(t), lev, len(states)))
     rules = {}
     from itertools import product
@@ -383,8 +383,8 @@ def gen_hand(rng, big):
         pools = [[q for q in states if q[0] == K(a)] for a in args_t]
         keys = list(product(*pools))
         rng.shuffle(keys)
-        dens = rng.uniform(0.3, 0.9) if len(args_t) < 3 else rng.uniform(0.1, 0.3)
-        for key in keys[: 40 if big else 25]:
+        dens = rng.uniform(0.4, 1.0) if len(args_t) < 3 else rng.uniform(0.1, 0.4)
+        for key in keys[: 60 if big else 40]:
             if rng.random() > dens:
                 continue
             lev = max(q[1] for q in key) + 1
@@ -766,7 +766,6 @@ def check(case, M):
         if K(t) not in seen:
             seen.add(K(t))
             trees.append(t)
-    obits = [O.accepts(t) for t in trees]
     depth = max(rank.values()) if acyclic and rank else 0
 
     # ---- implementation
@@ -784,6 +783,13 @@ def check(case, M):
             impl_d2[k] = norm(enc_nt_plain(nt))
         except Exception as e:
             impl_d2[k] = "none"
+    if len(set(K(v) for v in impl_d2.values())) < len(impl_d2):
+        # states merged (finding C06-F1): the grammar can be wildly ambiguous, and enumerating all
+        # derivations of a large program takes exponential time: keep the small programs
+        small = [t for t in trees if sum(1 for _ in paths(t)) <= 9]
+        trees = [t for t in small if O.accepts(t)][:40] + [t for t in small if not O.accepts(t)][:40]
+        tags.append("impl.d2state-merges")
+    obits = [O.accepts(t) for t in trees]
     progs = [tree_prog(t) for t in trees]
     jobs = [("plain", None)] + [("ngram", n) for n in widths]
     impl = []
